@@ -228,14 +228,17 @@ class RunBundler:
                 "data_keys": self._config_desc_cache[obj],
             }
 
-        self._descriptors[desc_key] = self._compose_descriptor(
+        descriptor_bundle = self._compose_descriptor(
             desc_key,
             data_keys,
             configuration=config,
             hints=hints,
             object_keys=object_keys,
         )
-        await self.emit(DocumentNames.descriptor, self._descriptors[desc_key].descriptor_doc)
+        # emit the descriptor before anybody (a monitor callback on another thread) can
+        # compose events against it
+        await self.emit(DocumentNames.descriptor, descriptor_bundle.descriptor_doc)
+        self._descriptors[desc_key] = descriptor_bundle
         doc_logger.debug(
             "[descriptor] document emitted with name %r containing data keys %r (run_uid=%r)",
             desc_key,
@@ -460,7 +463,9 @@ class RunBundler:
                     "passed to subscribe() was not called with Dict[str, Reading]"
                 )
             data, timestamps = _rearrange_into_parallel_dicts(readings)
-            doc = compose_event(
+            # use the stream's current descriptor: 'configure' replaces it
+            current = self._descriptors.get(name)
+            doc = (current.compose_event if current is not None else compose_event)(
                 data=data,
                 timestamps=timestamps,
             )
